@@ -147,9 +147,10 @@ func decodeLoop(p api.XProtocol, sum sumFn, chunks [][]byte) (so streamObs) {
 				if err != nil {
 					if f != nil {
 						if xf, ok := f.(api.XFrame); ok && xf.GetStreamType() == api.Request {
+							// handleError answers the request, the connection stays open, Dispatch goes on with the buffer
 							s, _ := sum(f, rp)
 							so.Events = append(so.Events, "R:"+s)
-							return
+							continue
 						}
 					}
 					so.Events = append(so.Events, "C")
